@@ -10,8 +10,57 @@ from . import common as cm
 from . import opscfg
 
 ID = 'C13'
-cases, describe, reduce, nontrivial = opscfg.cases, opscfg.describe, opscfg.reduce, opscfg.nontrivial
+describe_base, reduce, nontrivial = opscfg.describe, opscfg.reduce, opscfg.nontrivial
 outcome_big = 'big'
+GROUPS = {'mutex': ((0, 1), 3), 'optional-leaf': (None, 2), 'alternative': ((1, 1), 2), 'or': ((1, 2), 3), 'card02': ((0, 2), 4)}
+
+
+def cases(tier, seed):
+    yield from opscfg.cases(tier, seed)
+    # chains around and beyond the interpreter's recursion limit, with a group every 100 levels.  Running
+    # out of stack (RecursionError) is a resource failure the reference model does not define; a value
+    # that is returned has to be the exact count.
+    for n in (300, 900, 1500, 2500):
+        for link in ((1, 1), (0, 1)):
+            for g in GROUPS:
+                yield ('DC', n, link, g)
+
+
+def describe(case):
+    if case[0] == 'DC':
+        return 'DC:chain of %d levels linked by %s with a %s every 100 levels' % (case[1], list(case[2]), case[3])
+    return describe_base(case)
+
+
+def _deep_chain(case):
+    from flamapy.metamodels.fm_metamodel.models import Feature, FeatureModel, Relation
+    _k, n, link, g = case
+    gcard, factor = GROUPS[g]
+    feats = [Feature('N%d' % i, []) for i in range(n)]
+    for i in range(n - 1):
+        feats[i].add_relation(Relation(feats[i], [feats[i + 1]], link[0], link[1]))
+        if i % 100 == 50:
+            if gcard is None:
+                feats[i].add_relation(Relation(feats[i], [Feature('L%d' % i, [])], 0, 1))
+            else:
+                feats[i].add_relation(Relation(feats[i], [Feature('G%da' % i, []), Feature('G%db' % i, [])], gcard[0], gcard[1]))
+    fm = FeatureModel(feats[0], [])
+    engine.tick(n)
+    exact = 1
+    for i in range(n - 2, -1, -1):
+        exact = exact if link == (1, 1) else exact + 1
+        if i % 100 == 50:
+            exact *= factor
+    try:
+        res = FMEstimatedConfigurationsNumber().execute(fm).get_result()
+    except RecursionError:
+        return []
+    except Exception as exc:  # noqa: BLE001
+        return [Fail('raises:%s' % type(exc).__name__, 'chain of %d levels' % n)]
+    if isinstance(res, bool) or not isinstance(res, int) or res != exact:
+        return [Fail('estimate', {'estimate': str(res)[:60], 'exact': str(exact)[:60]})]
+    engine.validated()
+    return []
 
 
 def plan(tier):
@@ -45,14 +94,21 @@ def judge(res, model):
 
 
 def check(case):
+    if case[0] == 'DC':
+        return _deep_chain(case)
     model = opscfg.resolve(case)
     if case[0] == 'SE':
         return opscfg.edit_history(model, FMEstimatedConfigurationsNumber, judge)
+    if case[0] == 'SF':
+        return opscfg.failure_history(model, FMEstimatedConfigurationsNumber, judge)
+    if case[0] == 'SO':
+        return opscfg.result_ownership(model, FMEstimatedConfigurationsNumber, judge)
     fm, fails = cm.built(model)
     if fails:
         return fails
     try:
         res = FMEstimatedConfigurationsNumber().execute(fm).get_result()
+        engine.note(res)
         engine.tick()
     except Exception as exc:  # noqa: BLE001
         return [Fail('raises:%s' % type(exc).__name__, str(exc))]
@@ -60,6 +116,8 @@ def check(case):
 
 
 def outcome(case):
+    if case[0] == 'DC':
+        return 'deep-chain'
     if case[0] == 'B':
         return 'big'
     if sh.size(case[1]) > 16:
